@@ -390,8 +390,6 @@ mutual
     | .mk fl from_ withs selects insertTable updateTable columns values wheres prewheres havings
           groupbys orderbys joins updates usingSrcs duplicateUpdates returns onConflictFields
           onConflictDoUpdates onConflictWheres onConflictDoUpdateWheres distinctOn limitByTerms =>
-      if queryIsEmpty selects.isEmpty insertTable.isSome fl.deleteFrom updateTable.isSome values.isEmpty updates.isEmpty
-      then [] else
       let k : Ctx := queryCtx c fl (wantsNamespace fl (!joins.isEmpty) from_.length (fromIsQuery from_) updateTable.isSome)
       let kd : Ctx := dialectCtx c fl
       let withDoc : Doc := opt (!withs.isEmpty) (kws "WITH " :: joinDocs (K ",") (renderWiths k withs))
@@ -403,8 +401,11 @@ mutual
         (fromClause fl (joinDocs (K ",") (renderSrcL { k with withNamespace := false, subquery := true, withAlias := true } from_)))
       let joinsDoc : Doc := opt (!joins.isEmpty) (kws " " :: joinDocs (K " ") (renderJoins k joins))
       let whereDoc : Doc := opt wheres.isSome (K " WHERE ") ++ renderOpt { k with quote := .given k.q, subquery := true } wheres
+      -- the three early `return ""` end the generic get_sql only: the dialect overrides still append to the empty text
       let core : Doc :=
-        if updateTable.isSome then
+        if queryIsEmpty selects.isEmpty insertTable.isSome fl.deleteFrom updateTable.isSome values.isEmpty updates.isEmpty
+        then []
+        else if updateTable.isSome then
           withDoc ++ kws (if fl.cls = .clickhouse then "ALTER TABLE " else "UPDATE ") :: renderOptSrc k updateTable ++
             joinsDoc ++ kws (if fl.cls = .clickhouse then " UPDATE " else " SET ") ::
             joinDocs (K ",") (renderPairs { k with withNamespace := false } k updates) ++ fromDoc ++ whereDoc ++
